@@ -107,7 +107,7 @@ theorem evalTpl_copied (T : Table) (e : Env) :
     have := ind_split a h1 g1
     omega
 
-/-- a detached template (nothing uncopied out of the store, no temporary) yields identities that
+/-- a detached template (nothing uncopied out of the store or a cache, no temporary) yields identities that
     are fresh or belong to objects the caller holds already -/
 theorem evalTpl_detached (T : Table) (e : Env) :
     (∀ t, Tpl.detached T e t = true → Tpl.noTemp t = true → ∀ n,
@@ -129,7 +129,8 @@ theorem evalTpl_detached (T : Table) (e : Env) :
       | atom x => simp [chain_atom]
       | node id d kids => simp [hs, HVal.isAtom] at h
     · cases src with
-      | store i p => simp [Src.fromStore] at h
+      | store i p => simp [Src.fromLib] at h
+      | cache i p => simp [Src.fromLib] at h
       | temp i p => simp [Tpl.noTemp] at hn
       | held i p =>
         have h1 := chain_sub (T.disc pos) (Src.get e (.held i p)) n a
@@ -377,6 +378,29 @@ theorem evalTpls_detached (T : Table) (e : Env) : ∀ (ts : List Tpl)
     rw [cntL_cons]
     have := h2 a ha
     have := g2 a ha
+    have := ind_split a h1 g1
+    omega
+
+/-- copied templates (every travelling value deep-copied or a scalar) yield fresh identities only,
+    each once -/
+theorem evalTpls_copied (T : Table) (e : Env) : ∀ (ts : List Tpl)
+    (h : ts.all (fun t => Tpl.copied T e t) = true) (n : Nat),
+    n ≤ (evalTpls T e ts n).2 ∧
+    ∀ a, cntL a (evalTpls T e ts n).1 ≤ ind n (evalTpls T e ts n).2 a := by
+  intro ts
+  induction ts with
+  | nil => intro _ n; simp [evalTpls]
+  | cons t r ih =>
+    intro h n
+    simp only [List.all_cons, Bool.and_eq_true] at h
+    simp only [evalTpls]
+    obtain ⟨h1, h2⟩ := (evalTpl_copied T e).1 t h.1 n
+    obtain ⟨g1, g2⟩ := ih h.2 (evalTpl T e t n).2
+    refine ⟨by omega, ?_⟩
+    intro a
+    rw [cntL_cons]
+    have := h2 a
+    have := g2 a
     have := ind_split a h1 g1
     omega
 
